@@ -111,7 +111,7 @@ def perf_model(variant):
         cols = [c.lower() for c in data['flight_performance']['cols']]
         ix = {c: cols.index(c) for c in ('fuel_flow', 'tas', 'rocd', 'mass')}
         for row in data['flight_performance']['data']:
-            row[ix['fuel_flow']] *= variant['ff']
+            row[ix['fuel_flow']] *= variant['ff'] * (variant.get('ff_climb', 1.0) if row[ix['rocd']] > 1e-6 else 1.0)
             row[ix['tas']] *= variant['tas']
             row[ix['rocd']] *= variant['rocd']
             row[ix['mass']] *= variant['mass']
@@ -409,6 +409,24 @@ def resample_prefix(cols):
                                    left=np.nan, right=np.nan) for f in FIELDS}
 
 
+def resample_as_coded(traj):
+    """np.interp fed with the capacity-long buffers: what interpolate_time does before fixes/FC02a.diff."""
+    import numpy as np
+    t = np.array(traj._data['flight_time'], dtype=float)
+    return lambda q: {f: np.interp(np.array(q, dtype=float), t, np.array(traj._data[f], dtype=float),
+                                   left=np.nan, right=np.nan) for f in FIELDS}
+
+
+def same_resampling(r1, r2, queries) -> bool:
+    import numpy as np
+    for q in queries:
+        a, b = r1(q), r2(q)
+        for f in FIELDS:
+            if not np.array_equal(np.asarray(a[f], dtype=float), np.asarray(b[f], dtype=float), equal_nan=True):
+                return False
+    return True
+
+
 def pick_queries(t, rng):
     idx = [i for i in range(len(t) - 1) if t[i + 1] > t[i]]
     pick = [idx[rng.randrange(len(idx))] for _ in range(min(12, len(idx)))] if idx else []
@@ -510,7 +528,9 @@ def gen_table(rng, long_range=False):
         return None
     return {'tas': rng.choice([0.85, 1.0, 1.1]), 'rocd': rng.choice([0.7, 1.0, 1.3]),
             'ff': rng.choice([0.6, 1.0, 1.5]), 'mass': rng.choice([0.9, 1.0, 1.2]),
-            'ceiling_ft': rng.choice([33000, 37000, 39000, 41000]), 'payload': rng.choice([15000, 22422, 30000])}
+            'ceiling_ft': rng.choice([33000, 37000, 39000, 41000]), 'payload': rng.choice([15000, 22422, 30000]),
+            # a thirstier climb than the cruise-based fuel estimate allows for: negative fuel residuals
+            'ff_climb': rng.choice([1.0, 1.0, 3.0, 5.0])}
 
 
 REGIONAL = ['BOS', 'LAX', 'JFK', 'DEN', 'SFO', 'MIA', 'SEA', 'ORD', 'ABQ']
@@ -643,7 +663,13 @@ def check_flights(chk: Check, cases, f1_fixed: bool, interp_fixed: bool):
                 pick, lam = pick_queries(im['cols']['flight_time'], chk.rng)
                 rviol = oracle_resample(im['cols'], resample_impl(im['traj']), pick, lam)
                 if rviol:
-                    im['resample_prefix_ok'] = not oracle_resample(im['cols'], resample_prefix(im['cols']), pick, lam)
+                    # narrow match of FC02a: the stored points resample correctly, and the implementation does
+                    # exactly what np.interp does on the capacity-long buffers (nothing else is wrong)
+                    t = im['cols']['flight_time']
+                    qs = [t, [t[i] + l * (t[i + 1] - t[i]) for i, l in zip(pick, lam)], [t[0] - 1.0, t[-1] + 1.0]]
+                    im['resample_prefix_ok'] = (
+                        not oracle_resample(im['cols'], resample_prefix(im['cols']), pick, lam)
+                        and same_resampling(resample_impl(im['traj']), resample_as_coded(im['traj']), [q for q in qs if len(q)]))
                 interp_jobs.append((case, interp_job(im['cols'], pick, lam)))
         im['rviol'] = rviol
         im['viol'] = viol
@@ -733,7 +759,7 @@ def run(chk: Check):
         chk.notes['interpolate_time_behaviour'] = 'resamples the stored points (repaired)' if interp_fixed else \
             'resamples the capacity-long buffers (as coded, FC02a)'
         check_container(chk, f1_fixed)
-        cases = load_corpus(chk) + [gen_case(chk.rng, f1_fixed) for _ in range(chk.n(70, 1200))]
+        cases = load_corpus(chk) + [gen_case(chk.rng, f1_fixed) for _ in range(chk.n(110, 1200))]
         check_flights(chk, [c for c in cases if c.get('kind') != 'container'], f1_fixed, interp_fixed)
     finally:
         teardown_env()
